@@ -27,6 +27,9 @@ impl Check for C13 {
     fn id(&self) -> &'static str {
         "C13"
     }
+    fn in_panic_watch(&self) -> bool {
+        false
+    }
     fn panic_sig_of(&self, text: &str) -> String {
         panic_sig_fn(text)
     }
@@ -175,6 +178,9 @@ impl Check for C13 {
 impl Check for C14 {
     fn id(&self) -> &'static str {
         "C14"
+    }
+    fn in_panic_watch(&self) -> bool {
+        false
     }
     fn panic_sig_of(&self, text: &str) -> String {
         panic_sig_fn(text)
@@ -404,6 +410,9 @@ impl Check for C15 {
     fn id(&self) -> &'static str {
         "C15"
     }
+    fn in_panic_watch(&self) -> bool {
+        false
+    }
     fn panic_sig_of(&self, text: &str) -> String {
         panic_sig_fn(text)
     }
@@ -429,6 +438,19 @@ impl Check for C15 {
         target.commit();
         let all: Vec<Sample> = corpus.docs.iter().chain(corpus.changes.iter()).chain(corpus.bundles.iter()).chain(corpus.messages.iter()).chain(corpus.states.iter()).chain(corpus.cursors.iter()).chain(corpus.objids.iter()).chain(corpus.blooms.iter()).cloned().collect();
         let other = corpus.docs[1].bytes.clone();
+        // string decoders
+        let strs: Vec<String> = corpus.cursor_strs.iter().chain(corpus.objid_strs.iter()).cloned().collect();
+        let hash_str = corpus.world.ledger.keys().next().map(|h| h.to_string()).unwrap_or_default();
+        let actor_str = target.get_actor().to_hex_string();
+        for base in strs.iter().chain([hash_str, actor_str].iter()) {
+            for s in str_mutants(rng, base) {
+                cx.count("string_inputs");
+                if let Some((dec, p)) = all_str_decoders(cx, &s, &target) {
+                    cx.violation(&format!("{}|{dec}", panic_sig_fn(&p)), format!("{dec}({s:?}) panicked: {p}"), json!({"decoder": dec, "input": s}));
+                    return;
+                }
+            }
+        }
         let per_case = cx.tier.pick(120, 200);
         for k in 0..per_case {
             let s = rng.pick(&all).clone();
@@ -479,24 +501,11 @@ impl Check for C15 {
             let before: u64 = cx.counters.iter().filter(|(k, _)| k.starts_with("accepted_")).map(|(_, v)| *v).sum();
             if let Some((dec, p)) = all_byte_decoders(cx, &input, enc, &mut target) {
                 cx.violation(&format!("{}|{dec}", panic_sig_fn(&p)), format!("{dec} panicked on a {}-byte input ({} mutant of a {} sample): {p}", input.len(), how, s.kind), json!({"decoder": dec, "mutation": how, "sample_kind": s.kind, "input_hex": hex::encode(&input[..input.len().min(600)]), "input_len": input.len()}));
-                return;
+                continue;
             }
             let after: u64 = cx.counters.iter().filter(|(k, _)| k.starts_with("accepted_")).map(|(_, v)| *v).sum();
             if after > before || how.contains("sealed") || how.contains("ops:") || how.contains("changes:") {
                 cx.nontrivial(fnv(&input));
-            }
-        }
-        // string decoders
-        let strs: Vec<String> = corpus.cursor_strs.iter().chain(corpus.objid_strs.iter()).cloned().collect();
-        let hash_str = corpus.world.ledger.keys().next().map(|h| h.to_string()).unwrap_or_default();
-        let actor_str = target.get_actor().to_hex_string();
-        for base in strs.iter().chain([hash_str, actor_str].iter()) {
-            for s in str_mutants(rng, base) {
-                cx.count("string_inputs");
-                if let Some((dec, p)) = all_str_decoders(cx, &s, &target) {
-                    cx.violation(&format!("{}|{dec}", panic_sig_fn(&p)), format!("{dec}({s:?}) panicked: {p}"), json!({"decoder": dec, "input": s}));
-                    return;
-                }
             }
         }
         let _ = &mut corpus;
@@ -510,6 +519,9 @@ impl Check for C15 {
 impl Check for C16 {
     fn id(&self) -> &'static str {
         "C16"
+    }
+    fn in_panic_watch(&self) -> bool {
+        false
     }
     fn panic_sig_of(&self, text: &str) -> String {
         panic_sig_fn(text)
@@ -686,6 +698,9 @@ impl Check for C17 {
     fn id(&self) -> &'static str {
         "C17"
     }
+    fn in_panic_watch(&self) -> bool {
+        false
+    }
     fn panic_sig_of(&self, text: &str) -> String {
         panic_sig_fn(text)
     }
@@ -861,6 +876,9 @@ impl Check for C17 {
 impl Check for C39 {
     fn id(&self) -> &'static str {
         "C39"
+    }
+    fn in_panic_watch(&self) -> bool {
+        false
     }
     fn panic_sig_of(&self, text: &str) -> String {
         panic_sig_fn(text)
